@@ -613,9 +613,7 @@ def replay_evolve(point, nfs, target, members, what="run"):
             except Exception as e:  # noqa
                 errors.append("%s: %s" % (type(e).__name__, e))
         if what == "overlap":
-            got = errors[0] == "overlap" if not target else None
-            if got is None:
-                return None
+            got = any(e == "overlap" for e in errors)  # the check precedes everything that depends on the target grid
             return None if got == overlap else {"detail": "mugrid %r: overlap ValueError raised=%r, blocks overlap=%r" % (op.mugrid, got, overlap)}
         if overlap:
             return None
